@@ -78,16 +78,15 @@ theorem declSite_bok {ctx : Ctx} {mc : MCtx} (hi : InvR (fin := fin) recs ctx mc
     (h : declSite fin mc q n = true) :
     BOK recs (tauFin fin) { kind := ctx.varKind, scope := ctx.varScope, name := n } := by
   simp only [declSite, Bool.and_eq_true] at h
-  obtain ⟨L, E', he, hk, hs⟩ := hi.inv.head
-  have := head_bok hi.alr he (n := n) (by simpa using h.2)
-  rwa [hk, hs] at this
+  exact var_bok hi.alr hi.inv.var h.2
 
 /-- what entering a node means for the records -/
 theorem enterFacts_spec {mc : MCtx} {p : SPath} {k : String} {as : List (String × Val)} {inner : MCtx}
     (h : enterFacts fin recs mc p k as = some inner) :
     (isFunctionKind k = true ∧ ∃ R A, recs.find? (fun r => r.node == some p.reverse) = some R ∧ R.chain = A :: mc.chain ∧
         inner = { sid := R.id, chain := A :: mc.chain } ∧ ((k == "FuncExpr") = true → identAttrOf' as = none)) ∨
-    (isFunctionKind k = false ∧ inner = mc) := by
+    (isFunctionKind k = false ∧ (k == "Catch") = true ∧ catchRec fin recs mc p.reverse as = some inner) ∨
+    (isFunctionKind k = false ∧ (k == "Catch") = false ∧ inner = mc) := by
   unfold enterFacts at h
   by_cases hf : isFunctionKind k = true
   · left
@@ -102,7 +101,7 @@ theorem enterFacts_spec {mc : MCtx} {p : SPath} {k : String} {as : List (String 
       | cons A C =>
         rw [hRC] at h
         simp only at h
-        by_cases hall : funcFacts fin mc p k as R.id A C = true
+        by_cases hall : funcFacts fin recs mc p k as R.id A C = true
         · rw [if_pos hall] at h
           simp only [Option.some.injEq] at h
           simp only [funcFacts, Bool.and_eq_true] at hall
@@ -118,16 +117,22 @@ theorem enterFacts_spec {mc : MCtx} {p : SPath} {k : String} {as : List (String 
         · rw [if_neg hall] at h; cases h
   · right
     rw [if_neg hf] at h
-    simp only [Option.some.injEq] at h
-    exact ⟨by simpa using hf, h.symm⟩
+    by_cases hc : (k == "Catch") = true
+    · left
+      rw [if_pos hc] at h
+      exact ⟨by simpa using hf, hc, h⟩
+    · right
+      rw [if_neg hc] at h
+      simp only [Option.some.injEq] at h
+      exact ⟨by simpa using hf, by simpa using hc, h.symm⟩
 
 theorem enter_invR (hgood : ∀ R ∈ recs, ChainGood R.chain) {ctx : Ctx} {mc : MCtx}
     (hi : InvR (fin := fin) recs ctx mc) (p : SPath) (k : String)
-    (as : List (String × Val)) (hk1 : (k != "Catch") = true) (hk2 : (k != "Label") = true) (inner : MCtx)
+    (as : List (String × Val)) (hk2 : (k != "Label") = true) (inner : MCtx)
     (h : enterFacts fin recs mc p k as = some inner) : InvR (fin := fin) recs (enter ctx p k as) inner := by
-  obtain ⟨_, hinv, _⟩ := enter_of_facts recs hgood hi.inv p k as hk1 hk2 inner h
+  obtain ⟨_, hinv, _⟩ := enter_of_facts recs hgood hi.inv p k as hk2 inner h
   refine ⟨hinv, ?_⟩
-  rcases enterFacts_spec h with ⟨hf, R, A, hR, hRC, rfl, hfe⟩ | ⟨hf, rfl⟩
+  rcases enterFacts_spec h with ⟨hf, R, A, hR, hRC, rfl, hfe⟩ | ⟨hf, hc, hcr⟩ | ⟨hf, hc, rfl⟩
   · have henv : (enter ctx p k as).env
         = { kind := .var, scope := p, names := paramsOf k as ++ hoistElemsOf as } :: ctx.env := by
       rw [enter_unfold]
@@ -138,8 +143,14 @@ theorem enter_invR (hgood : ∀ R ∈ recs, ChainGood R.chain) {ctx : Ctx} {mc :
     have hal := hinv.al
     rw [henv] at hal ⊢
     exact .func p _ ctx.env A mc.chain hal ⟨R, hR, hRC⟩ hi.alr
-  · have hc : (k == "Catch") = false := by simpa using hk1
-    have hl : (k == "Label") = false := by simpa using hk2
+  · obtain ⟨c, hca, _, R, K, hR, hRC, rfl, _, _⟩ := catchRec_inv recs hgood hi.inv p.reverse as inner hcr
+    have henv : (enter ctx p k as).env = { kind := .catch, scope := p, names := [c] } :: ctx.env := by
+      rw [enter_unfold]
+      simp only [hf, Bool.false_eq_true, if_false, hc, if_true, identAttr_eq, hca]
+    have hal := hinv.al
+    rw [henv] at hal ⊢
+    exact .catch p c ctx.env K mc.chain hal ⟨R, hR, hRC⟩ hi.alr
+  · have hl : (k == "Label") = false := by simpa using hk2
     have henter : enter ctx p k as = ctx := by
       rw [enter_unfold]
       simp [hf, hc, hl]
@@ -151,6 +162,7 @@ theorem roleOut_bok {octx ictx : Ctx} {omc imc : MCtx} (hio : InvR (fin := fin) 
     (hii : InvR (fin := fin) recs ictx imc) (p : SPath) (a : String) (v : Val) (role : Role)
     (rF rI rO : List Occ) (fF fI fO : Bool)
     (hparams : role = .params → ictx.varKind = .var ∧ ictx.varScope = p)
+    (hcatch : role = .catchParam → ∃ c E', ictx.env = { kind := .catch, scope := p, names := [c] } :: E')
     (h : roleFacts fin omc imc p a v role fF fI fO = true)
     (hF : fF = true → ∀ o ∈ rF, ∀ b ∈ o.binders, BOK recs (tauFin fin) b)
     (hI : fI = true → ∀ o ∈ rI, ∀ b ∈ o.binders, BOK recs (tauFin fin) b)
@@ -182,7 +194,22 @@ theorem roleOut_bok {octx ictx : Ctx} {omc imc : MCtx} (hio : InvR (fin := fin) 
     obtain ⟨h1, h2⟩ := hparams rfl
     have := declSite_bok hii (h q hq)
     rwa [h1, h2] at this
-  | catchParam => simp [roleFacts] at h
+  | catchParam =>
+    simp only [roleOut] at ho
+    simp only [roleFacts, List.all_eq_true] at h
+    obtain ⟨q, hq, hbs⟩ := declOccs_mem p a v _ o ho
+    rw [hbs] at hb
+    simp only [List.mem_singleton] at hb
+    subst hb
+    obtain ⟨c, E', he⟩ := hcatch rfl
+    have halr := hii.alr
+    rw [he] at halr
+    obtain ⟨K, C, u, hmc, hk, hrec, _⟩ := alR_catch_inv halr
+    have hcs := h q hq
+    simp only [catchSite, Bool.and_eq_true, hmc, isCatchOf, hk, beq_iff_eq] at hcs
+    have hcq : c = q.2 := hcs.2
+    rw [← hcq]
+    exact .catch p c u K C hrec hk
   | labelDecl => simp [roleFacts] at h
   | labelRef =>
     simp only [roleOut] at ho
